@@ -122,24 +122,31 @@ Theorem C12_checked_main_is_integer : forall src p d,
 Proof. exact CheckFixed.check_main_i64. Qed.
 Print Assumptions C12_checked_main_is_integer.
 
-(* The unguarded statement (and its Barendregt-guarded form fun2core_preserves_typing = H_fun2core_wt) stays FALSE of
-   the current checker because of the known finding call-to-main (C02): corpus/fun/call_main_nontail.sc is accepted,
-   well-typed by the rules, satisfies the Barendregt condition and has no shadowing risk; its translation calls
-   `main(0, mu~ r. ..)` against `def main(n: prd i64)`: wrong number of arguments. *)
-Theorem C12_fun2core_call_main_typing_refuted :
+(* REGRESSION (former finding call-to-main-typing, repaired in /repo by <commitmain>).  The unguarded statement (and its
+   Barendregt-guarded form) was FALSE of the translation before the fix ([compile_prog_before_fix]):
+   corpus/fun/call_main_nontail.sc is accepted, well-typed by the rules, satisfies the Barendregt condition and has no
+   shadowing risk; its OLD translation called `main(0, mu~ r. ..)` against `def main(n: prd i64)`: wrong number of
+   arguments.  The repaired translation of the witness is well typed (C12_call_main_typing_witness_fixed). *)
+Theorem C12_fun2core_call_main_typing_refuted_before_fix :
   exists (src : fprog) (p : fcprog) (c : cprog),
     has_type_b src = true /\ Check.check src = COk p /\ annotated_fcprog p = true /\
-    compile_prog p = Fun2Core.Ok c /\ wt_core c = false /\
+    compile_prog_before_fix p = Fun2Core.Ok c /\ wt_core c = false /\
     shadowing_risk_prog p = false /\ calls_main_prog p = true /\ barendregt p = true /\
     prog_tyguard p = false.
-Proof. exact fun2core_call_main_typing_refuted_lemma. Qed.
-Print Assumptions C12_fun2core_call_main_typing_refuted.
-Theorem C12_fun2core_preserves_typing_refuted : ~ fun2core_preserves_typing.
+Proof. exact fun2core_call_main_typing_refuted_before_fix_lemma. Qed.
+Print Assumptions C12_fun2core_call_main_typing_refuted_before_fix.
+Theorem C12_call_main_typing_witness_fixed :
+  exists c, compile_prog call_main_witness = Fun2Core.Ok c /\ wt_core c = true /\ calls_main_prog call_main_witness = true.
+Proof. exact call_main_typing_witness_fixed_lemma. Qed.
+Print Assumptions C12_call_main_typing_witness_fixed.
+Theorem C12_fun2core_preserves_typing_refuted_before_fix :
+  ~ (forall src p, Check.check src = COk p -> barendregt p = true ->
+     exists c, compile_prog_before_fix p = Fun2Core.Ok c /\ wt_core c = true /\ pre_check c = true).
 Proof.
-  intro H. destruct fun2core_call_main_typing_refuted_lemma as (src & p & c & _ & Hc & _ & Ec & Hw & _ & _ & Hb & _).
+  intro H. destruct fun2core_call_main_typing_refuted_before_fix_lemma as (src & p & c & _ & Hc & _ & Ec & Hw & _ & _ & Hb & _).
   destruct (H src p Hc Hb) as (c' & Ec' & Hw' & _). rewrite Ec in Ec'. inversion Ec'; subst. rewrite Hw in Hw'. discriminate.
 Qed.
-Print Assumptions C12_fun2core_preserves_typing_refuted.
+Print Assumptions C12_fun2core_preserves_typing_refuted_before_fix.
 
 (* PROVED INSIDE A BOOLEAN GUARD ON THE ANNOTATED CHECKED PROGRAM (round 2).  [prog_tyguard p]
    (Model/Fun2CoreTyGuard.v) = for every definition
